@@ -22,4 +22,15 @@ def dedup : List String → List String
 
 def idIssues (ids : List String) : List String := dedup (ids.filter fun i => 1 < ids.count i)
 
+/-! identifier syntax (`validateCellmlIdentifier`): the rule an identifier breaks, if any -/
+inductive IdRule | ok | empty | beginsWithDigit | notLatinAlphanumeric
+  deriving DecidableEq, Repr
+
+def isDigit (c : Char) : Bool := '0' ≤ c && c ≤ '9'
+def isIdChar (c : Char) : Bool := ('a' ≤ c && c ≤ 'z') || ('A' ≤ c && c ≤ 'Z') || isDigit c || c = '_'
+
+def identifier : List Char → IdRule
+  | [] => .empty
+  | c :: rest => if isDigit c then .beginsWithDigit else if (c :: rest).all isIdChar then .ok else .notLatinAlphanumeric
+
 end Cellml.Valid
